@@ -1,4 +1,5 @@
 import Pathrs.Proofs.Props.C01
+import Pathrs.Proofs.KProbe
 
 /-!
 # C04 — kernel and emulated resolver backends are observationally equivalent
@@ -13,9 +14,12 @@ property) the two backends return the same object or the same errno; with
 
 Full lookups (`resolve`, `resolve_nofollow`, `readlink`, and the parent lookups of every
 single-entry operation) are covered by these theorems.  The *partial* lookups behind
-`mkdir_all` (symlink stack vs. ancestor probing) and the flag handling of the one-shot open are
-not proved equivalent here: for them the property is decided by the transcript tie plus the
-pairwise differential oracle of the check (`theorem partial`, see DESIGN.md).
+`mkdir_all` are covered by `C04_partial_agree`: the emulated walk with its symlink stack
+(`Opath.resolvePartial`, `KSimStack.walk_sim_stack`) and the kernel backend's probing of ever
+shorter prefixes (`Openat2.resolvePartial` over `Path.partialAncestors`, `KProbe.anc_probe`)
+hand `mkdir_all` the same directory and the same components to create, or the same error.
+The flag handling of the one-shot open is not proved equivalent here: for it the property is
+decided by the transcript tie plus the pairwise differential oracle of the check.
 -/
 
 open K KRun World KSim KSpec
@@ -62,6 +66,100 @@ theorem C04_readlink_agree (hw : w.WF) (path : Bytes) (hnul : path.contains 0 = 
   rw [C01_readlink hw _ path hnul, C01_readlink hw _ path hnul]
   simp only [↓reduceIte, Bool.false_eq_true]
   rw [C04_spec_agree rflags true path hlinks h]
+
+/-! ### partial lookups (`mkdir_all`) -/
+
+open KPartial KPartialRun KProbe SStack in
+/-- what `mkdir_all` does with a partial lookup: the directory to start from and the components to create -/
+def obsPartial : Except Err (Fd × Option Bytes) → Except Err (Fd × List Bytes)
+  | .ok (h, r) => .ok (h, Root.remainingParts r)
+  | .error e => .error e
+
+open KPartial KPartialRun KProbe SStack in
+theorem partial_agree_core (hw : w.WF) (path : Bytes) (hp : path ≠ []) (hnul : path.contains 0 = false) (rflags : Nat)
+    (hfull : kresolve w (ecfg rflags false) w.root (Path.rawComponents path) 0
+      = kresolve w (kcfgK w rflags false) w.root (Path.rawComponents path) 0)
+    (hconv : ∀ k, pfx w (kcfgK w rflags false) (Path.rawComponents path) k ≠ .error ELOOP →
+      pfx w (ecfg rflags false) (Path.rawComponents path) k = pfx w (kcfgK w rflags false) (Path.rawComponents path) k) :
+    obsPartial (Prog.run w (Root.partialTarget (kenv w) { fd := w.root, resolver := { emulated := true, rflags } } path))
+      = obsPartial (Prog.run w (Root.partialTarget (kenv w) { fd := w.root, resolver := { emulated := false, rflags } } path)) := by
+  obtain ⟨le, e1, e2, e3⟩ := run_opath_resolvePartial hw path hp rflags
+  obtain ⟨lk, k1, k2, k3⟩ := run_openat2_resolvePartial hw path hp hnul rflags
+  rw [hfull] at e2
+  have hsl : ∀ x ∈ Path.rawComponents path, Path.containsSlash x = false := rawComponents_single path
+  unfold Root.partialTarget Resolver.resolvePartial
+  simp only [↓reduceIte, Bool.false_eq_true, M.bind_def, run_bind'_simp, e1, k1]
+  cases hres : kresolve w (kcfgK w rflags false) w.root (Path.rawComponents path) 0 with
+  | ok h =>
+    rw [hres] at e2 k2
+    cases le with
+    | part _ _ _ => simp [lookupOut, toOut] at e2
+    | complete he =>
+      cases lk with
+      | part _ _ _ => simp [lookupOut, toOut] at k2
+      | complete hk =>
+        simp only [lookupOut, toOut, Except.ok.injEq] at e2 k2
+        subst e2; subst k2
+        rfl
+  | error e =>
+    rw [hres] at e2 k2
+    cases le with
+    | complete _ => simp [lookupOut, toOut] at e2
+    | part he re ee =>
+      cases lk with
+      | complete _ => simp [lookupOut, toOut] at k2
+      | part hk rk ek =>
+        simp only [lookupOut, toOut, Except.error.injEq] at e2 k2
+        subst e2; subst k2
+        by_cases hen : e = ENOENT
+        · subst hen
+          obtain ⟨je, ⟨_, ⟨x, s1⟩, s2⟩, s3⟩ := e3 he re rfl
+          obtain ⟨jk, e', t0, t1, t2, t3⟩ := k3 hk rk _ rfl
+          cases t0
+          have u1 : pfx w (ecfg rflags false) (Path.rawComponents path) jk = .ok hk := by
+            rw [hconv jk (by rw [t1]; intro h; cases h), t1]
+          have u2 : pfx w (ecfg rflags false) (Path.rawComponents path) (jk + 1) = .error ENOENT := by
+            rw [hconv (jk + 1) (by rw [t2]; intro h; cases h), t2]
+          have v1 : pfx w (ecfg rflags false) (Path.rawComponents path) je = .ok he := by
+            unfold pfx; rw [kresolve_eq_kres2, s1]; rfl
+          obtain ⟨hj, hh⟩ := stop_unique (ecfg rflags false) rfl _ je jk he hk _ _ v1 s2 u1 u2
+          subst hj; subst hh
+          simp only [↓reduceIte, run_do_pure, obsPartial]
+          rw [t3, s3, remainingParts_joinSlash _ (fun c hc => hsl c (List.mem_of_mem_drop hc))]
+        · have hne : Err.os e ≠ Err.os ENOENT := by intro h; cases h; exact hen rfl
+          simp only [hne, ↓reduceIte, run_bind'_simp, run_do_liftP, run_do_throw, obsPartial]
+
+/-- **Partial lookups agree**: `mkdir_all`'s partial lookup gives the same starting directory and the same
+components to create, or the same error, on both backends — unless the kernel ran out of its link budget. -/
+theorem C04_partial_agree (hw : w.WF) (path : Bytes) (hp : path ≠ []) (hnul : path.contains 0 = false) (rflags : Nat)
+    (hlinks : w.kernelLinks ≤ MAX_SYMLINK_TRAVERSALS)
+    (h : kresolve w (kcfgK w rflags false) w.root (Path.rawComponents path) 0 ≠ .error ELOOP) :
+    obsPartial (Prog.run w (Root.partialTarget (kenv w) { fd := w.root, resolver := { emulated := true, rflags } } path))
+      = obsPartial (Prog.run w (Root.partialTarget (kenv w) { fd := w.root, resolver := { emulated := false, rflags } } path)) :=
+  partial_agree_core hw path hp hnul rflags
+    (kresolve_limit_mono (kcfgK w rflags false) (ecfg rflags false) rfl rfl hlinks _ _ _ h)
+    (fun _ hk => kresolve_limit_mono (kcfgK w rflags false) (ecfg rflags false) rfl rfl hlinks _ _ _ hk)
+
+/-- with `RESOLVE_NO_SYMLINKS` they agree unconditionally -/
+theorem C04_partial_agree_nosym (hw : w.WF) (path : Bytes) (hp : path ≠ []) (hnul : path.contains 0 = false) (rflags : Nat)
+    (hns : hasAll rflags RESOLVE_NO_SYMLINKS = true) :
+    obsPartial (Prog.run w (Root.partialTarget (kenv w) { fd := w.root, resolver := { emulated := true, rflags } } path))
+      = obsPartial (Prog.run w (Root.partialTarget (kenv w) { fd := w.root, resolver := { emulated := false, rflags } } path)) :=
+  partial_agree_core hw path hp hnul rflags
+    (kresolve_nosym (kcfgK w rflags false) (ecfg rflags false) rfl hns hns _ _ _ _)
+    (fun _ _ => kresolve_nosym (kcfgK w rflags false) (ecfg rflags false) rfl hns hns _ _ _ _)
+
+/-- non-vacuity: on the example world the hypotheses hold for the missing path `zz/y` -/
+example : obsPartial (Prog.run exWorld (Root.partialTarget (kenv exWorld) { fd := exWorld.root, resolver := { emulated := true, rflags := 0 } } b!"zz/y"))
+    = obsPartial (Prog.run exWorld (Root.partialTarget (kenv exWorld) { fd := exWorld.root, resolver := { emulated := false, rflags := 0 } } b!"zz/y")) := by
+  apply C04_partial_agree exWorld_wf _ (by decide) (by decide) _ (by decide)
+  have hr : Path.rawComponents b!"zz/y" = [b!"zz", b!"y"] := by decide
+  rw [hr]
+  show exWorld.kresolve _ 4 [b!"zz", b!"y"] 0 ≠ _
+  rw [k_name _ _ _ _ _ (by rfl) (by decide) (by decide) (by decide)]
+  have : exWorld.child 4 b!"zz" = none := by decide
+  rw [this]
+  intro h; cases h
 
 /-- non-vacuity: on the example world `a` resolves (no-follow) to the link itself on both backends -/
 example : Prog.run exWorld (Opath.resolve (kenv exWorld) exWorld.root b!"a" 0 true)
